@@ -769,7 +769,11 @@ fn decompress_udp(
         return Err(Error);
     }
     let udp_payload_len = if let Some(total_len) = total_len {
-        total_len - *payload_len - 8
+        // The datagram size of the fragment header comes from the wire and may be smaller
+        // than the headers that were actually decompressed.
+        total_len
+            .checked_sub(*payload_len + 8)
+            .ok_or(Error)?
     } else {
         payload.len()
     };
